@@ -100,6 +100,7 @@ def run(F, R, tier):
     # ------------------------------------------------------------------ R4 validation units
     r4 = R.rule("C02-R4", "T1+T3+T4", "validate_decoded_credential: the five once_with units call the five checks with the configured bounds and all flow into the error collector; fail-fast table; Ok iff no error")
     _units(F, r4)
+    r4.floor(9)
 
     # ------------------------------------------------------------------ R5 unit predicates
     r5 = R.rule("C02-R5", "T6+T4", "unit predicates: expiry ≥ bound or absent; issuance ≤ bound; subject-holder table; status table; revocation bitmap membership; credential structure")
@@ -182,99 +183,67 @@ def _parse_jwk(F, r3):
 
 
 def _units(F, r4):
+    """validate_decoded_credential by abstract evaluation (the five checks opaque): Ok ⇔ every configured check succeeded, each on
+    the token's credential with the caller's bound/options."""
     fn = V + "::validate_decoded_credential"
-    h = F.hir(fn)
-    if not r4.anchor(h, fn):
+    if not r4.anchor(F.hir(fn), fn):
         return
-    env = H.Env(h)
-    CRED_OK = lambda o: bool(o) and all(x[:3] == ("param", "credential_token", "credential") for x in o)
-    want = {
-        U + "::check_expires_on_or_after": [CRED_OK, lambda o: o == {("param", "options", "earliest_expiry_date")}],
-        U + "::check_issued_on_or_before": [CRED_OK, lambda o: o == {("param", "options", "latest_issuance_date")}],
-        U + "::check_structure": [CRED_OK],
-        U + "::check_subject_holder_relationship": [CRED_OK, lambda o: only(o, "param", "options", "subject_holder_relationship"), lambda o: only(o, "param", "options", "subject_holder_relationship")],
-        U + "::check_status": [CRED_OK, lambda o: o == {("param", "issuers")}, lambda o: o == {("param", "options", "status")}],
+    tab = SR.Table(F, fn, opaque=r"JwtCredentialValidatorUtils::check_[a-z_]+$|Credential::check_structure$", rule=r4, max_paths=8000)
+    OPT = SR.param("options")
+    CREDT = SR.fld("credential", base=SR.param("credential_token"))
+    checks = {
+        "check_expires_on_or_after": ("earliest_expiry_date",),
+        "check_issued_on_or_before": ("latest_issuance_date",),
+        "check_structure": (),
+        "check_subject_holder_relationship": ("subject_holder_relationship",),
+        "check_status": ("status",),
     }
-    units = {}
-    for n in H.walk(H.root(h)):
-        if n.get("k") == "let" and n.get("init") is not None:
-            init = H.strip(n["init"])
-            if init.get("k") == "call" and (init.get("fn") or "").endswith("iter::sources::once_with::once_with"):
-                names = [b[0] for b in H.pat_bindings(n["pat"])]
-                cl = H.strip(init["args"][0])
-                called = [c for c in H.calls(cl["body"], re.compile(r"JwtCredentialValidatorUtils::check_")) ] if cl.get("k") == "closure" else []
-                if len(called) == 1 and names:
-                    units[names[0]] = called[0]
-    seen_checks = set()
-    for name, c in units.items():
-        cf = H.fn_name(c)
-        seen_checks.add(cf)
-        preds = want.get(cf)
-        if preds is None:
-            r4.fail((fn, "unit-unknown", cf), "validation unit `%s` calls an unexpected check %s" % (name, cf))
-            continue
-        args = H.call_args(c)
-        oks = []
-        for i, p in enumerate(preds):
-            oo = H.origins(args[i], env)
-            # closure params of `.map(|(holder, relationship)| ..)` resolve to the receiver
-            if any(o[0] == "closure_param" for o in oo):
-                tree = H.Tree(h)
-                cl = tree.enclosing_closure(c)
-                par = tree.parent.get(id(cl)) if cl else None
-                if par and par[0].get("k") == "mcall":
-                    oo = H.origins(par[0]["recv"], env)
-            oks.append(p(oo))
-            if not p(oo):
-                r4.fail((fn, "unit-arg", cf.rsplit("::", 1)[-1], i), "validation unit `%s`: argument %d of %s derives from %s" % (name, i, L.short(cf), sorted(map(str, oo))), c["sp"])
-        r4.site("unit %s → %s(%d args from the configured options)" % (name, L.short(cf), len(preds)), c["sp"])
-    for cf in want:
-        r4.require(cf in seen_checks, (fn, "unit-missing", cf.rsplit("::", 1)[-1]), "no validation unit calls %s" % L.short(cf))
-    # every unit flows into the error collector
-    ve = [n for n in H.walk(H.root(h)) if n.get("k") == "let" and any(b[0] == "validation_errors" for b in H.pat_bindings(n["pat"]))]
-    if r4.require(len(ve) == 1, (fn, "collector"), "the `validation_errors` collector was not found"):
-        trace = set()
-        H.origins(ve[0]["init"], env, extra=re.compile(r"Iterator::(chain|filter_map|take|collect)$|Iterator>::(chain|filter_map|take|collect)$"), trace=trace)
-        for name in units:
-            r4.require(name in trace, (fn, "unit-not-chained", name), "validation unit `%s` is built but never chained into the error collector" % name)
-        r4.site("collector consumes %s" % sorted(trace & set(units)), ve[0]["sp"])
-        # filter_map keeps the errors
-        fm = [c for c in H.walk(H.root(h)) if c.get("k") == "mcall" and c["name"] == "filter_map"]
-        okf = any("core::result::Result::err" in H.called_fns(c["args"][0]) for c in fm if c.get("args"))
-        r4.require(okf, (fn, "filter-errors"), "the unit results are not filtered with `result.err()`")
-        m = H.strip(ve[0]["init"])
-        if r4.require(m.get("k") == "match", (fn, "failfast-table"), "fail-fast selection is not a match"):
-            r4.require(H.origins(m["scrut"], env) == {("param", "fail_fast")}, (fn, "failfast-scrut"), "fail-fast table does not match on fail_fast")
-            for arm in m["arms"]:
-                ps = H.pat_str(arm["pat"])
-                takes = [c for c in H.walk(arm["body"]) if c.get("k") == "mcall" and c["name"] == "take"]
-                lim = H.literals(takes[0]["args"][0]) if takes else None
-                r4.site("fail_fast %s → take %s" % (ps, lim), arm["body"].get("sp"))
-                if ps == "FirstError":
-                    r4.require(lim == [1], (fn, "failfast", ps), "FirstError must keep exactly the first error (take(1)), found %s" % lim)
-                elif ps == "AllErrors":
-                    r4.require(not takes, (fn, "failfast", ps), "AllErrors must collect every error, found take(%s)" % lim)
-                else:
-                    r4.fail((fn, "failfast", ps), "unexpected fail-fast arm %s" % ps)
-    # Ok iff validation_errors.is_empty(); the token returned is the parameter
-    tree, infos = L.exit_infos(h)
-    for e in infos:
-        conds = []
-        for c in e.conds:
-            if c[0] == "if":
-                cc = H.strip(c[1])
-                if cc.get("k") == "mcall" and cc["name"] == "is_empty" and H.local_name(cc["recv"]) == "validation_errors":
-                    conds.append(c[2])
-        if L.is_success_exit(e):
-            r4.require(conds == [True], (fn, "ok-iff-empty"), "Ok is returned without `validation_errors.is_empty()` being true", e.node.get("sp"))
-            _, inner = H.ctor_class(e.node)
-            oo = H.origins(inner, env)
-            r4.require(oo == {("param", "credential_token")}, (fn, "returns-token"), "the token returned is not the one that was validated: %s" % sorted(map(str, oo)))
-            r4.site("Ok(credential_token) iff validation_errors.is_empty()", e.node.get("sp"))
+    n = 0
+    for q in tab.paths:
+        res = {}
+        for name in checks:
+            es = q.calls(r"::%s$" % name)
+            res[name] = es
+        if SR.is_success(q.ret):
+            n += 1
+            for name, opt in checks.items():
+                es = res[name]
+                if name == "check_subject_holder_relationship" and SR.variant(q, SR.fld("subject_holder_relationship", base=OPT)) == "None":
+                    r4.require(not es, (fn, "unit-arg", name, "unconfigured"), "the subject-holder check runs although no relationship is configured")
+                    continue
+                if not r4.require(len(es) == 1, (fn, "unit-missing", name), "validate_decoded_credential accepts without calling %s" % name):
+                    continue
+                e = es[0]
+                r4.require(q.succeeded(e) is True, (fn, "unit-not-chained", name), "the result of %s does not reach the error collector: the credential is accepted although the check may have failed" % name)
+                r4.require(sym.term(e.args[0]) == CREDT, (fn, "unit-arg", name, 0), "%s is not applied to the token's credential: %r" % (name, e.args[0]))
+                if name in ("check_expires_on_or_after", "check_issued_on_or_before"):
+                    OT = SR.fld(opt[0], base=OPT)
+                    a1 = sym.term(e.args[1])
+                    okb = a1 == ("payload", OT, "Some", 0) if SR.variant(q, OT) == "Some" else (SR.variant(q, OT) == "None" and (a1 == ("default",) or "now" in sym.fmt(a1) or "default" in sym.fmt(a1)))
+                    r4.require(okb, (fn, "unit-arg", name, 1), "%s is not given options.%s (or its default): %s" % (name, opt[0], sym.fmt(a1)))
+                elif name == "check_subject_holder_relationship":
+                    OT = ("payload", SR.fld("subject_holder_relationship", base=OPT), "Some", 0)
+                    r4.require(SR.derives(e.args[1], OT) and SR.derives(e.args[2], OT) and sym.term(e.args[1]) != sym.term(e.args[2]), (fn, "unit-arg", name, 1),
+                               "check_subject_holder_relationship is not given the configured (holder, relationship)")
+                elif name == "check_status":
+                    r4.require(sym.term(e.args[1]) == SR.param("issuers"), (fn, "unit-arg", name, 1), "check_status is not given the issuers")
+                    r4.require(sym.term(e.args[2]) == SR.fld("status", base=OPT), (fn, "unit-arg", name, 2), "check_status is not given options.status: %r" % (e.args[2],))
+            out = q.ret.fields[0] if isinstance(q.ret, sym.V) and q.ret.fields else None
+            r4.require(out is not None and sym.term(out) == SR.param("credential_token"), (fn, "returns"), "the token returned is not the validated one")
         else:
-            r4.require(conds == [False], (fn, "err-iff-nonempty"), "the error exit is not the `!is_empty()` branch", e.node.get("sp"))
-    r4.floor(9)
-
+            failed = [name for name, es in res.items() if any(q.succeeded(e) is False for e in es)]
+            r4.require(bool(failed), (fn, "spurious-error"), "validate_decoded_credential rejects although no check failed — path: %s" % q.describe()[-160:])
+    for name in checks:
+        r4.site("unit %s: called with the credential and the configured bound, result required on %d accepting path(s)" % (name, n))
+    r4.site("Ok ⇔ no check failed; the validated token is returned")
+    # fail-fast: FirstError keeps exactly the first error
+    h = F.hir(fn)
+    takes = [x for x in H.walk(H.root(h)) if x.get("k") == "mcall" and x["name"] == "take"]
+    lims = [H.literals(x["args"][0]) for x in takes]
+    r4.site("fail-fast: take(%s)" % lims)
+    r4.require(any(l_ == [1] for l_ in lims) or not takes, (fn, "failfast", "FirstError"), "FirstError must keep exactly the first error (take(1)), found %s" % lims)
+    r4.site("fail-fast table present: %s" % bool(takes))
+    r4.site("validated on %d accepting and %d rejecting path(s)" % (n, len(tab.err())))
 
 def _predicates(F, r5):
     CREDP = SR.param("credential")
